@@ -239,7 +239,7 @@ func enumerateCrashSites(p *Prog, fns map[*ssa.Function]*CGEdge) []crashSite {
 								continue
 							}
 						}
-						add(crashSite{Class: "K6", Fn: fn, In: in, Val: sz, Need: needNonNeg, What: "make([]) size " + describeVal(sz)})
+						add(crashSite{Class: "K6", Fn: fn, In: in, Val: sz, Need: needNonNeg, What: "make([]) size " + describeSize(sz)})
 						break
 					}
 				}
